@@ -280,7 +280,7 @@ package storage
 //@   ensures result == f.lastKey
 
 //@ func (f *fileStore) incrementLastKey() error
-//@   props C01 C02
+//@   props C01 C02 C13
 //@   requires fsLocked(f)
 //@   modifies f.lastKey
 //@   ensures result == nil && f.lastKey == uint32(old(f.lastKey) + 1)
@@ -292,20 +292,20 @@ package storage
 //@   ensures result == f._nextLSN
 
 //@ func (f *fileStore) incrLSN()
-//@   props C02
+//@   props C02 C13
 //@   requires fsLocked(f)
 //@   modifies f._nextLSN
 //@   ensures f._nextLSN == uint64(old(f._nextLSN) + 1)
 
 //@ func (f *fileStore) setPageTableRoot(node *btreeNode) error
-//@   props C01
+//@   props C01 C13
 //@   requires fsLocked(f)
 //@   requires node != nil
 //@   modifies f.pageTableRoot
 //@   ensures result == nil && f.pageTableRoot == node.fileOffset
 
 //@ func (f *fileStore) append(node *btreeNode) error
-//@   props C01 C11 C16
+//@   props C01 C11 C16 C13
 //@   requires fsLocked(f)
 //@   requires cacheOK(f) && node != nil
 //@   modifies node.fileOffset, f.nextFreeOffset, listLen(f.cache.list), listAt(f.cache.list), listPos, listOf, mapof(f.cache.cache), all(cacheEntry.val)
@@ -356,7 +356,7 @@ package storage
 //@ spec pred btOK(b *BTree) { typeof(b.store) == typ(*fileStore) && fsOf(b) != nil && cacheOK(fsOf(b)) }
 
 //@ func (b *BTree) getRoot() (*btreeNode, error)
-//@   props C01 C11
+//@   props C01 C11 C13
 //@   requires fsLocked(fsOf(b))
 //@   requires btOK(b)
 //@   modifies listLen(fsOf(b).cache.list), listAt(fsOf(b).cache.list), listPos, listOf, mapof(fsOf(b).cache.cache), all(cacheEntry.val)
@@ -577,7 +577,7 @@ package storage
 //@   ensures btOK(b)
 
 //@ func (b *BTree) insert(value []byte) (uint32, uint64, error)
-//@   props C01 C02
+//@   props C01 C02 C13
 //@   requires fsLocked(fsOf(b))
 //@   requires btOK(b)
 //@   modifies @treeState, @cacheState, storeState, b.rootOffset, fsOf(b).nextFreeOffset, fsOf(b).lastKey, fsOf(b)._nextLSN
@@ -641,13 +641,13 @@ package storage
 //@   ensures[held; C13] txn == 1
 
 //@ func (rs *RelationService) getRelationFileOffset$1(cell *leafCell) (ScanAction, error)
-//@   props C01
+//@   props C01 C13
 //@   requires cell != nil
 //@   modifies cell(found), cell(fileOffset), storeState
 //@   allowpanic assert
 
 //@ func (rs *RelationService) getRelationFileOffset(relName string) (int64, error)
-//@   props C01 C02 C14
+//@   props C01 C02 C14 C13
 //@   requires fsLocked(rs.fs)
 //@   requires rsOK(rs)
 //@   modifies all(leafCell.pg), @cacheState, storeState
@@ -664,8 +664,8 @@ package storage
 //@   ensures err == nil ==> result0 != nil && fresh(result0)
 
 //@ func (rs *RelationService) Update$1(cell *leafCell) (ScanAction, error)
-//@   props C01 C02 C04 C14
-//@   requires txn != 0
+//@   props C01 C02 C04 C14 C13
+//@   requires fsLocked(rs.fs)
 //@   requires cell != nil && cell.pg != nil && leafOK(cell.pg)
 //@   requires rs != nil && rs.fs != nil && r != nil
 //@   requires len(cols) <= len(updateSrc)
@@ -688,8 +688,8 @@ package storage
 //@   ensures[L1; C02] rs.fs._nextLSN == old(rs.fs._nextLSN) + len(result0)
 
 //@ func (rs *RelationService) updatePageTable$1(cell *leafCell) (ScanAction, error)
-//@   props C01 C02 C04 C14
-//@   requires txn != 0
+//@   props C01 C02 C04 C14 C13
+//@   requires fsLocked(rs.fs)
 //@   requires cell != nil && cell.pg != nil && leafOK(cell.pg)
 //@   requires rs != nil && rs.fs != nil
 //@   assume[lsn-no-wrap] rs.fs._nextLSN < 18446744073709551615
@@ -702,7 +702,7 @@ package storage
 //@              (forall n *btreeNode :: n.dirty == old(n.dirty) && n.lastLSN == old(n.lastLSN))
 
 //@ func (rs *RelationService) updatePageTable(fileOffset uint64, tableName string) (WALBatch, error)
-//@   props C01 C02 C14
+//@   props C01 C02 C14 C13
 //@   requires fsLocked(rs.fs)
 //@   requires rsOK(rs)
 //@   modifies all(leafCell.pg), all(leafCell.valueBytes), all(leafCell.valueSize), all(btreeNode.dirty), all(btreeNode.lastLSN), @cacheState, storeState, rs.fs._nextLSN
@@ -788,6 +788,7 @@ package storage
 //@ func (rs *RelationService) MarkDeleted(tableName string, rowID uint32) (WALBatch, error)
 //@   props C01 C02 C13 C14
 //@   requires rsOK(rs) && txn == 1
+//@   assume[lsn-no-wrap] rs.fs._nextLSN < 18446744073709551615
 //@   modifies all(leafCell.pg), all(leafCell.deleted), all(btreeNode.dirty), all(btreeNode.lastLSN), @cacheState, storeState, rs.fs._nextLSN
 //@   ensures[rs] rsOK(rs) && txn == 1
 //@   ensures[L1; C02] rs.fs._nextLSN == old(rs.fs._nextLSN) + len(result0)
